@@ -3,7 +3,14 @@
 Fault injection without source hooks: the mutating calls the save path makes into fontTools.ufoLib
 (UFOWriter / GlyphSet methods) and the standard library (shutil.move, shutil.rmtree, os.remove) are
 wrapped in process; the k-th call raises OSError before doing anything.  For the history under test
-k ranges over ALL steps of its final save (enumerated, not sampled)."""
+k ranges over ALL steps of its final save (enumerated, not sampled).
+
+Round 3: besides the injected OSError the histories carry REAL content faults (a value plistlib cannot write in a
+glyph / font / layer lib, an anchor without coordinates, a glyph width that is not a number, a kerning value that is
+not a number, feature text that is not text, a glyph in two kern1 groups): the save fails by itself at the step that
+writes that content, the user corrects the content, saves again.  The order of the calls INSIDE each layer's save
+(glyph files, deletions, contents.plist, layerinfo.plist) is compared with M-SaveSteps layer by layer, and for
+in-place package saves the model's prediction of what the retry persists is compared with what it did."""
 import copy
 import os
 import shutil
@@ -16,14 +23,21 @@ from sexp import Atom
 PROP = "C18"
 MODEL = "savesteps"
 SHRINKABLE = False
-RULE = ("generated fonts and edit histories (as C01) ending in one save in a random mode (in place, save-as new, over an "
-        "existing UFO, over a plain file; package/zip); a dry run counts the N mutating steps of that save, then the "
-        "history is re-run N times with the k-th step raising OSError; after each failure: other-path destination "
-        "byte-identical, no temporary directory left, path/format kept, still dirty; then a retry save to the font's path "
-        "must succeed and the UFO read back must equal the shadow content; non-trivial = N >= 3 and the history mutates "
-        "something; distinct = distinct (spec, ops)")
+RULE = ("generated fonts and edit histories (as C01; in half of the cases ending with a scripted layer scenario: an "
+        "on-disk glyph deleted or renamed, a glyph changed, a new glyph, in ONE layer) ending in one save in a random mode "
+        "(in place, save-as new, over an existing UFO, over a plain file; package/zip); a dry run counts the N mutating "
+        "steps of that save, then the history is re-run N times with the k-th step raising OSError, and once per content "
+        "fault of the case (1-3 of: unwritable glyph lib / anchor / width / mark colour, font lib, kerning, features, "
+        "groups, layer lib) with the save failing by itself; after each failure: other-path destination byte-identical, "
+        "no temporary directory left, path/format kept, still dirty; then (the content corrected,) more edits and a "
+        "retry save to the font's path must succeed and the UFO read back must equal the shadow content; the calls "
+        "inside each layer's save are compared with the model's order; for in-place package saves without pending layer "
+        "renames the model's verdict on the retry (ok / raises / which glyphs are lost) is compared fault by fault; "
+        "non-trivial = N >= 3 and the history mutates something; distinct = distinct (spec, ops)")
 ASSUMPTIONS = [
-    "a fault is an OSError raised by the step before it changes anything (no torn writes inside one ufoLib call)",
+    "an environment fault is an OSError raised by the step before it changes anything (no torn writes inside one ufoLib call)",
+    "a content fault is a value the ufoLib writer rejects before it touches the file system (checked: every content-fault "
+    "run must fail at the step that writes the spoiled object, else the case is reported)",
     "single fault per save; the finally-clause clean-up itself does not fail",
     "content domain as C01",
 ]
@@ -38,6 +52,7 @@ class Faults(object):
         self.count = 0
         self.fail_at = None
         self.log = []
+        self.details = []
         self.tempdirs = []
         self.fired = None
 
@@ -46,13 +61,15 @@ class Faults(object):
         self.count = 0
         self.fail_at = fail_at
         self.log = []
+        self.details = []
         self.fired = None
 
-    def hit(self, name):
+    def hit(self, name, detail=None):
         if not self.active:
             return
         self.count += 1
         self.log.append(name)
+        self.details.append(detail)
         if self.fail_at is not None and self.count == self.fail_at:
             self.fired = name
             self.active = False           # one fault per save
@@ -75,18 +92,23 @@ def install():
     from fontTools.ufoLib import UFOWriter
     from fontTools.ufoLib.glifLib import GlyphSet
 
-    def wrap(cls, name, label):
+    def wrap(cls, name, label, glyphset=False):
         orig = getattr(cls, name)
 
         def w(self, *a, **k):
-            FAULTS.hit(label)
+            detail = None
+            if glyphset:
+                # which glyph set (directory) and, for glyph files, which glyph
+                gname = a[0] if a and name in ("writeGlyph", "deleteGlyph") else k.get("glyphName")
+                detail = (id(self), gname if name in ("writeGlyph", "deleteGlyph") else None)
+            FAULTS.hit(label, detail)
             return orig(self, *a, **k)
         w.__name__ = name
         setattr(cls, name, w)
     for n in WRITER_STEPS:
         wrap(UFOWriter, n, "UFOWriter." + n)
     for n in GLYPHSET_STEPS:
-        wrap(GlyphSet, n, "GlyphSet." + n)
+        wrap(GlyphSet, n, "GlyphSet." + n, glyphset=True)
     o_move, o_rmtree, o_remove, o_mkdtemp = shutil.move, shutil.rmtree, os.remove, tempfile.mkdtemp
 
     def in_temp(p):
@@ -115,23 +137,167 @@ def install():
     shutil.move, shutil.rmtree, os.remove, tempfile.mkdtemp = move, rmtree, remove, mkdtemp
 
 
+GLYPH_FAULTS = ["lib", "anchor", "width", "markcolor"]
+
+
+def _state_before_final_save(c):
+    sh = pc.Shadow(c["spec"])
+    for o in c["ops"][:-1]:
+        if o[0] != "save":
+            sh.do(o)
+    return sh
+
+
+def _last_saved_state(c):
+    """the content of the UFO at the font's path before the final save (None: the font was never saved / read)"""
+    sh = pc.Shadow(c["spec"])
+    saved = copy.deepcopy(sh.s) if c.get("origin", "disk") == "disk" else None
+    for o in c["ops"][:-1]:
+        if o[0] == "save":
+            saved = copy.deepcopy(sh.s)
+        else:
+            sh.do(o)
+    return saved
+
+
+def _layer_scenario(rng, c):
+    """edits since the last successful save that make ONE layer's save interesting: a glyph that is on disk is deleted or
+    renamed away (pending deletion), another one changed, sometimes a new glyph that sorts first / last"""
+    sh = _state_before_final_save(c)
+    saved = _last_saved_state(c)
+    if saved is None:
+        return [], None
+    on_disk = {l["name"]: set(l["glyphs"]) for l in saved["layers"]}
+    cands = [l for l in sh.s["layers"] if len([g for g in l["glyphs"] if g in on_disk.get(l["name"], ())]) >= 2]
+    if not cands:
+        return [], None
+    L = rng.choice(cands)
+    ln = L["name"]
+    names = sorted(g for g in L["glyphs"] if g in on_disk[ln])
+    rng.shuffle(names)
+    gone, kept = names[0], names[1]
+    ops = []
+    if rng.random() < 0.75:
+        ops.append(["gdel", ln, gone])
+    else:
+        pool = fg.BASES if gone in fg.BASES else fg.COMPOSITES
+        free = [n for n in pool if n not in L["glyphs"]]
+        if free:
+            ops.append(["grename", ln, gone, rng.choice(free)])
+        else:
+            ops.append(["gdel", ln, gone])
+    ops.append(["gfield", ln, kept, "width", rng.choice([111, 222, 640])])
+    if rng.random() < 0.5:
+        free = [n for n in fg.GLYPH_NAMES if n not in L["glyphs"]]
+        if free:
+            ops.append(["gnew", ln, rng.choice(free)])
+    if len(names) > 2 and rng.random() < 0.4:
+        ops.append(["gdel", ln, names[2]])
+    rng.shuffle(ops)
+    return ops, ln
+
+
+def _gen_cfaults(rng, c, focus_layer):
+    """1-3 real content faults applicable to the state before the final save"""
+    sh = _state_before_final_save(c)
+    res = []
+    layers = [l for l in sh.s["layers"] if l["glyphs"]]
+    n = rng.randint(1, 3)
+    for _ in range(n):
+        r = rng.random()
+        if r < 0.62 and layers:
+            L = None
+            if focus_layer is not None and rng.random() < 0.85:
+                L = next((l for l in layers if l["name"] == focus_layer), None)
+            if L is None:
+                L = rng.choice(layers)
+            cf = ["glyph", L["name"], rng.choice(sorted(L["glyphs"])), rng.choice(GLYPH_FAULTS)]
+        elif r < 0.70:
+            cf = ["fontlib"]
+        elif r < 0.77:
+            cf = ["kerning"]
+        elif r < 0.83:
+            cf = ["features"]
+        elif r < 0.88:
+            cf = ["groups"]
+        else:
+            cf = ["layerlib", rng.choice([l["name"] for l in sh.s["layers"]])]
+        if cf not in res:
+            res.append(cf)
+    return res
+
+
+def _without_layer_actions(spec, ops):
+    """the history without layer renames / deletions / changes of the default layer, and without the later ops that
+    speak of a layer name that then does not exist"""
+    sh = pc.Shadow(spec)
+    res = []
+    for o in ops:
+        if o[0] in ("ldel", "lrename", "ldefault"):
+            continue
+        names = [l["name"] for l in sh.s["layers"]]
+        if o[0] == "lorder":
+            if sorted(o[1]) != sorted(names):
+                continue
+        elif o[0] in ("gget", "gread", "gnew", "ginsert", "gdel", "grename", "gset", "gfield", "lcolor", "llib"):
+            if o[1] not in names:
+                continue
+        if o[0] != "save":
+            sh.do(o)
+        res.append(o)
+    return res
+
+
 def generate(rng, tier):
     n = 36 if tier == "quick" else 400
     for _ in range(n):
         c = pc.gen_case(rng, tier, MODES, maxops=8 if tier == "quick" else 14, p_save=0.1)
+        # small fonts keep N moderate
+        for l in c["spec"]["layers"]:
+            for gn in list(l["glyphs"])[4:]:
+                del l["glyphs"][gn]
         # exactly one save under test, at the end; earlier saves stay (they run without faults)
         ops = [o for o in c["ops"]]
         while ops and ops[-1][0] == "save":
             ops.pop()
-        ops.append(["save", rng.choice(MODES), c["structure"]])
+        mode = rng.choice(MODES)
+        scenario = rng.random() < 0.5
+        if scenario:
+            # the histories the one-layer model speaks about: a font read from a UFO directory, saved in place, usually
+            # with no layer renamed / deleted / made the default since the last save
+            if rng.random() < 0.7:
+                mode = "inplace"
+            if rng.random() < 0.7:
+                c["structure"] = "package"
+                ops = [o for o in ops if not (o[0] == "save" and o[2] == "zip")]
+            if rng.random() < 0.85:
+                c["origin"] = "disk"
+            if rng.random() < 0.6:
+                ops = _without_layer_actions(c["spec"], ops)
+        ops.append(["save", mode, c["structure"]])
         c["ops"] = ops
+        focus = None
+        if scenario:
+            extra, focus = _layer_scenario(rng, c)
+            if rng.random() < 0.5:
+                # ... and changes of the components that have steps of their own (data files, images, kerning, features)
+                for _ in range(rng.randint(1, 2)):
+                    r = rng.random()
+                    if r < 0.4:
+                        extra.append(["dat", rng.choice(fg.DATA_NAMES), rng.randint(7, 11)])
+                    elif r < 0.7:
+                        extra.append(["img", rng.choice(fg.IMAGE_NAMES), rng.randint(7, 11)])
+                    elif r < 0.85:
+                        extra.append(["kern", "%s|%s" % (rng.choice(fg.GLYPH_NAMES[:4]), rng.choice(fg.GLYPH_NAMES[:4])), rng.choice([-33, 41])])
+                    else:
+                        extra.append(["feat", rng.choice(["# h\n", "# i\n"])])
+            c["ops"] = ops[:-1] + extra + [ops[-1]]
+        # real content faults: each is tried in a run of its own
+        c["cfaults"] = _gen_cfaults(rng, c, focus) if rng.random() < 0.8 else []
         # what the user does between the failure and the retry ("followed by any retry sequence")
         c["after"] = []
-        if rng.random() < 0.6:
-            sh = pc.Shadow(c["spec"])
-            for o in ops[:-1]:
-                if o[0] != "save":
-                    sh.do(o)
+        if rng.random() < (0.35 if scenario else 0.6):
+            sh = _state_before_final_save(c)
             c["after"] = [o for o in pc.gen_ops(rng, sh.s, rng.randint(1, 3), ["inplace"], p_save=0.0) if o[0] != "save"]
             if rng.random() < 0.5:
                 # delete a glyph that exists at that point
@@ -139,10 +305,6 @@ def generate(rng, tier):
                     if l["glyphs"]:
                         c["after"].insert(0, ["gdel", l["name"], sorted(l["glyphs"])[0]])
                         break
-        # small fonts keep N moderate
-        for l in c["spec"]["layers"]:
-            for gn in list(l["glyphs"])[4:]:
-                del l["glyphs"][gn]
         yield c
 
 
@@ -194,6 +356,30 @@ PHASE = {"UFOWriter.writeInfo": 0, "UFOWriter.writeGroups": 1, "UFOWriter.writeK
          "UFOWriter.writeFeatures": 4}
 
 
+def _layer_inputs(font):
+    """per layer (in layerOrder): the inputs of M-SaveSteps' one-layer save, glyph names numbered in sorted order"""
+    res = []
+    for ln in font.layers.layerOrder:
+        layer = font.layers[ln]
+        gs = layer._glyphSet
+        listed = set(gs.contents.keys()) if gs is not None else set()
+        mem = set(layer.keys())
+        sched = [n for n in layer._scheduledForDeletion.keys() if n in listed]     # dict order = order of the deletions
+        dirty = set(n for n, g in layer._glyphs.items() if g.dirty and n in mem)
+        univ = sorted(listed | mem | set(sched))
+        ids = {n: i for i, n in enumerate(univ)}
+        res.append(dict(name=ln, ids=ids, listed=sorted(ids[n] for n in listed), mem=sorted(ids[n] for n in mem),
+                        dirty=sorted(ids[n] for n in dirty), sched=[ids[n] for n in sched],
+                        new=sorted(ids[n] for n in dirty if n not in listed)))
+    return res
+
+
+def _layer_nsteps(L, kind):
+    if kind == "inplace":
+        return len(L["dirty"]) + len(L["sched"]) + 2
+    return len(L["mem"]) + 2
+
+
 def _abstract_inputs(case):
     """the inputs of the model's plan for the save under test, read off a prepared font (single process, no faults)"""
     tmpd = tempfile.mkdtemp(prefix="vc18_")
@@ -222,18 +408,83 @@ def _abstract_inputs(case):
                     if gn in layer._glyphs and layer._glyphs[gn].dirty:
                         dirty_glyphs.append(nglyphs)
                 nglyphs += 1
+        layers = _layer_inputs(font)
+        # layer actions the save will replay: new layers only get their glyph set created; the "default" action recorded
+        # while the font was LOADED (no previous default) names the layer that is the default on disk already
+        pending = [a["action"] for a in font.layers._layerActionHistory
+                   if a["action"] != "new" and not (a["action"] == "default" and a.get("oldDefault") is None)]
+        domain = (kind == "inplace" and str(font.path).endswith(".ufo") and not pending and not case.get("after"))
         font.close()
-        return kind, flags, nglyphs, dirty_glyphs, len(font.layers.layerOrder)
+        return dict(kind=kind, flags=flags, nglyphs=nglyphs, dirty_glyphs=dirty_glyphs, nlayers=len(font.layers.layerOrder),
+                    layers=layers, pending=pending, domain=domain, package=str(font.path).endswith(".ufo"))
     finally:
         shutil.rmtree(tmpd, ignore_errors=True)
 
 
+def _retry_points(case, inp):
+    """the faults whose retry the model predicts: (layer index, 'env', k) for every step inside every layer's save, and the
+    content faults of the case that sit in a glyph or a layer lib — only for in-place package saves with no layer
+    rename / delete / default change pending and no edits between failure and retry"""
+    if not inp["domain"]:
+        return []
+    pts = []
+    for li, L in enumerate(inp["layers"]):
+        for k in range(_layer_nsteps(L, "inplace")):
+            pts.append((li, "env", k))
+    for ci, cf in enumerate(case.get("cfaults", [])):
+        if cf[0] == "glyph":
+            for li, L in enumerate(inp["layers"]):
+                if L["name"] == cf[1] and cf[2] in L["ids"]:
+                    pts.append((li, "glyph", L["ids"][cf[2]], ci))
+        elif cf[0] == "layerlib":
+            for li, L in enumerate(inp["layers"]):
+                if L["name"] == cf[1]:
+                    pts.append((li, "layerinfo", 0, ci))
+    return pts
+
+
 def model_lines(case):
     install()
-    kind, flags, nglyphs, dirty_glyphs, nlayers = _abstract_inputs(case)
-    # features is the one component the model cannot write conditionally on save-as: pass its flag, and let the
-    # model treat save-as as "write all" only for the others by pre-filtering here
-    return [[Atom("plan"), Atom(kind), flags, nglyphs, dirty_glyphs]]
+    inp = _abstract_inputs(case)
+    lines = [[Atom("plan"), Atom(inp["kind"]), inp["flags"], inp["nglyphs"], inp["dirty_glyphs"]]]
+    lmode = Atom("inplace" if inp["kind"] == "inplace" else "saveas")
+    for L in inp["layers"]:
+        lines.append([Atom("layer"), lmode, L["listed"], L["mem"], L["dirty"], L["sched"]])
+    for pt in _retry_points(case, inp):
+        L = inp["layers"][pt[0]]
+        dirty = L["dirty"]
+        if pt[1] == "glyph":
+            dirty = sorted(set(dirty) | {pt[2]})        # spoiling the glyph makes it dirty
+        lines.append([Atom("retry"), L["listed"], L["mem"], dirty, L["sched"], Atom(pt[1]), pt[2]])
+    return lines
+
+
+def _segments(steps, details):
+    """the dry run's calls on glyph sets, grouped by glyph set object: [[(label, glyph name)]] in call order"""
+    segs = []
+    cur = None
+    for i, (s, d) in enumerate(zip(steps, details)):
+        if not s.startswith("GlyphSet."):
+            continue
+        if cur is None or cur[0] != d[0]:
+            cur = (d[0], [])
+            segs.append(cur)
+        cur[1].append((i, s, d[1]))
+    return [c[1] for c in segs]
+
+
+def _observed_layer(seg, L):
+    res = []
+    for _, s, gname in seg:
+        if s == "GlyphSet.writeGlyph":
+            res.append([Atom("glyph"), L["ids"].get(gname, 999)])
+        elif s == "GlyphSet.deleteGlyph":
+            res.append([Atom("delete"), L["ids"].get(gname, 999)])
+        elif s == "GlyphSet.writeContents":
+            res.append(Atom("contents"))
+        elif s == "GlyphSet.writeLayerInfo":
+            res.append(Atom("layerinfo"))
+    return res
 
 
 def _observed_plan(steps, kind, flags):
@@ -300,6 +551,102 @@ def _items(dump):
     return res
 
 
+STEP_PHASE = {
+    "UFOWriter.writeInfo": "comp", "UFOWriter.writeGroups": "comp", "UFOWriter.writeKerning": "comp",
+    "UFOWriter.writeLib": "comp", "UFOWriter.writeFeatures": "comp",
+    "UFOWriter.writeImage": "images", "UFOWriter.removeImage": "images", "UFOWriter.copyImageFromReader": "images",
+    "UFOWriter.writeBytesToPath": "data", "UFOWriter.removePath": "data", "UFOWriter.copyFromReader": "data",
+    "UFOWriter.deleteGlyphSet": "layer-actions", "UFOWriter.renameGlyphSet": "layer-actions",
+    "GlyphSet.writeGlyph": "glyph-write", "GlyphSet.deleteGlyph": "glyph-delete", "GlyphSet.writeContents": "contents",
+    "GlyphSet.writeLayerInfo": "layerinfo", "UFOWriter.writeLayerContents": "layercontents",
+    "UFOWriter.setModificationTime": "close", "UFOWriter.close": "close",
+    "shutil.move": "replace", "shutil.rmtree": "replace", "os.remove": "replace",
+}
+
+
+def _spoil(font, cf):
+    """gives one object of the font content that its writer rejects (a REAL failure of the save, no injection)"""
+    k = cf[0]
+    if k == "glyph":
+        g = font.layers[cf[1]][cf[2]]
+        how = cf[3]
+        if how == "lib":
+            g.lib["com.a.bad"] = set([1])                     # plistlib cannot write a set
+        elif how == "anchor":
+            g.appendAnchor({"name": "bad"})                   # an anchor without coordinates
+        elif how == "width":
+            g.width = "wide"
+        elif how == "markcolor":
+            g.lib["public.markColor"] = "zz"
+        return g
+    if k == "fontlib":
+        font.lib["com.a.bad"] = set([1])
+    elif k == "kerning":
+        font.kerning[("zzL", "zzR")] = "x"
+    elif k == "features":
+        font.features.text = 5
+    elif k == "groups":
+        font.groups["public.kern1.zz1"] = ["zzG"]
+        font.groups["public.kern1.zz2"] = ["zzG"]             # one glyph in two kern1 groups
+    elif k == "layerlib":
+        font.layers[cf[1]].lib["com.a.bad"] = set([1])
+    return None
+
+
+def _correction(cf):
+    """the ops (of the ordinary vocabulary: applied to the font and to the shadow) that make the spoiled object writable"""
+    k = cf[0]
+    if k == "glyph":
+        ln, gn, how = cf[1], cf[2], cf[3]
+        if how == "lib":
+            return [["gfield", ln, gn, "libkey", ["com.a.bad", [1]]]]
+        if how == "anchor":
+            return [["gfield", ln, gn, "clearanchors", None]]
+        if how == "width":
+            return [["gfield", ln, gn, "width", 333]]
+        return [["gfield", ln, gn, "libkey", ["public.markColor", None]]]
+    if k == "fontlib":
+        return [["lib", "com.a.bad", [1]]]
+    if k == "kerning":
+        return [["kern", "zzL|zzR", 7]]
+    if k == "features":
+        return [["feat", "# ok\n"]]
+    if k == "groups":
+        return [["group", "public.kern1.zz2", None], ["group", "public.kern1.zz1", ["zzG"]]]
+    return [["llib", cf[1], "com.a.bad", 8]]
+
+
+CF_STEP = {"glyph": "GlyphSet.writeGlyph", "fontlib": "UFOWriter.writeLib", "kerning": "UFOWriter.writeKerning",
+           "features": "UFOWriter.writeFeatures", "groups": "UFOWriter.writeGroups", "layerlib": "GlyphSet.writeLayerInfo"}
+
+
+def _reason(e):
+    """why a retry raised, in a few stable words"""
+    m = str(e)
+    for pat, slug in (("contents.plist references a file that does not exist", "listed-file-gone"),
+                      ("in contents.plist does not exist", "glif-unreadable"),
+                      ("contents.plist is missing", "contents-missing"),
+                      ("layercontents.plist", "layercontents"),
+                      ("No glyphs directory", "no-glyphs-directory"),
+                      ("is closed", "closed"),
+                      ("not a zip", "bad-zip"), ("Bad magic", "bad-zip")):
+        if pat in m:
+            return slug
+    return "other"
+
+
+def _fault_context(inp, segs, step_index):
+    """history features of the layer whose save the fault hits (None outside the glyph-set phases): pending deletions of
+    on-disk glyphs, dirty glyphs that contents.plist does not list"""
+    for li, seg in enumerate(segs):
+        if any(i == step_index for i, _, _ in seg):
+            if li < len(inp["layers"]):
+                L = inp["layers"][li]
+                return li, bool(L["sched"]), bool(L["new"])
+            return li, False, False
+    return None, False, False
+
+
 def run_impl(case):
     install()
     op = case["ops"][-1]
@@ -318,26 +665,52 @@ def run_impl(case):
         finally:
             FAULTS.active = False
         steps = list(FAULTS.log)
+        details = list(FAULTS.details)
         n = len(steps)
         impl.font.close()
     finally:
         shutil.rmtree(tmpd, ignore_errors=True)
     stats["steps"] = n
-    kind_, flags_, ng_, dg_, nl_ = _abstract_inputs(case)
-    obs = _observed_plan(steps, kind_, flags_)
-    if kind_ != "inplace":
-        # on save-as the model writes every component and every glyph: features only when there is text
-        pass
-    outs.append(obs)
-    for k in range(1, n + 1):
+    inp = _abstract_inputs(case)
+    kind_, flags_ = inp["kind"], inp["flags"]
+    outs.append(_observed_plan(steps, kind_, flags_))
+    # the calls inside each layer's save, layer by layer
+    segs = _segments(steps, details)
+    for li, L in enumerate(inp["layers"]):
+        outs.append(_observed_layer(segs[li], L) if len(segs) == len(inp["layers"]) else [Atom("glyph-sets"), len(segs)])
+    stats["layers"] = len(inp["layers"])
+    if any(L["sched"] for L in inp["layers"]):
+        stats["history.pending-deletion"] = 1
+    if any(L["sched"] and L["dirty"] for L in inp["layers"]):
+        stats["history.pending-deletion+dirty-glyph-same-layer"] = 1
+    if inp["domain"]:
+        stats["retry-predicted-cases"] = 1
+    retry_points = _retry_points(case, inp)
+    observed_retry = {}
+    # global step index -> (layer index, index inside the layer's save)
+    in_layer = {}
+    for li, seg in enumerate(segs):
+        for j, (i, _, _) in enumerate(seg):
+            in_layer[i] = (li, j)
+
+    def one_run(fault_k, cf, ci):
+        """the history, then the save under test failing (environment: the fault_k-th call raises; content: `cf` spoiled),
+        the property's oracles, (the correction,) the edits of the case, the retry"""
         tmpd = tempfile.mkdtemp(prefix="vc18_")
         try:
             impl, shadow = _prepare(case, tmpd)
             font = impl.font
+            if cf is not None:
+                try:
+                    keep = _spoil(font, cf)
+                    impl.keep.append(keep)
+                except Exception:
+                    stats["content.not-applicable"] = stats.get("content.not-applicable", 0) + 1
+                    return
             path0, fmt0, dirty0 = font.path, font.ufoFormatVersion, font.dirty
             dest, mode, before, do_save = _final_save(impl, op, tmpd)
             FAULTS.tempdirs = []
-            FAULTS.reset(k)
+            FAULTS.reset(fault_k)
             raised = None
             try:
                 do_save()
@@ -348,14 +721,25 @@ def run_impl(case):
                 FAULTS.active = False
             import gc
             gc.collect()          # a zip writer's scratch file system goes away with the writer object
-            step = FAULTS.fired or "?"
+            fkind = "env" if cf is None else "content"
+            if cf is None:
+                step = FAULTS.fired or "?"
+                step_index = fault_k - 1
+            else:
+                step = FAULTS.log[-1] if FAULTS.log else "?"
+                step_index = len(FAULTS.log) - 1
+                if raised is not None and step != CF_STEP[cf[0]]:
+                    # the save failed, but not at the step that writes the spoiled object: not the run that was meant
+                    stats["content.failed-elsewhere"] = stats.get("content.failed-elsewhere", 0) + 1
             kind = op[1] if mode is None else mode
-            stats["fault." + step] = stats.get("fault." + step, 0) + 1
+            stats["fault.%s.%s" % (fkind, step)] = stats.get("fault.%s.%s" % (fkind, step), 0) + 1
             sig_tail = "%s/%s" % (kind, step)
-            rec = dict(step=k, of=n, failing_step=step, mode=kind)
+            rec = dict(step=step_index + 1, of=n, failing_step=step, mode=kind, fault=fkind)
+            if cf is not None:
+                rec["content_fault"] = cf
             if raised is None:
                 viol.append(dict(rec, clause="C18/fault-swallowed", signature="C18/fault-swallowed/" + sig_tail))
-                continue
+                return
             # (1) an existing destination other than the font's own path is untouched
             if before is not None:
                 after = _dest_digest(dest, mode)
@@ -374,13 +758,34 @@ def run_impl(case):
                                  path=[path0, font.path], fmt=[str(fmt0), str(font.ufoFormatVersion)]))
             if dirty0 and not font.dirty:
                 viol.append(dict(rec, clause="C18/not-dirty-after-failure", signature="C18/not-dirty-after-failure/" + sig_tail))
-            # (4) more edits, then a retry to the font's path persists everything
+            # (4) (the cause corrected,) more edits, then a retry to the font's path persists everything
+            mclass = "inplace" if kind == "inplace" else "saveas"
+            if kind == "inplace" and str(path0).endswith(".ufoz"):
+                mclass = "inplace-zip"      # a zip is rewritten on close(): every earlier failure leaves it untouched
+            # what explains a loss in an in-place package save: the kind and phase of the failing step, and the history
+            # of the layer it hit (pending deletions of on-disk glyphs, dirty glyphs contents.plist does not list yet),
+            # and whether layer renames / deletions / a change of the default layer were pending
+            li, has_del, has_new = _fault_context(inp, segs, step_index)
+            if inp["pending"]:
+                # the layer action history is replayed by every attempt and the layers read from glyph sets whose
+                # directories the failed attempt moved: one mechanism, whatever the step
+                cause = "%s+layer-actions" % fkind
+            else:
+                cause = "%s@%s%s%s" % (fkind, STEP_PHASE.get(step, "other"), "+del" if has_del else "", "+new" if has_new else "")
+            rec["cause"] = cause
+            narrow = "/" + cause if mclass == "inplace" else ""
+            verdict = None
             try:
                 at_failure = _items(pc.strip_order(fg.expected_dump(shadow.s)))
-                for o in case.get("after", []):
+                todo = (_correction(cf) if cf is not None else []) + list(case.get("after", []))
+                for o in todo:
                     st, _ = impl.do(o)
                     if st == "ok":
                         shadow.do(o)
+                        if o[0] == "lrename":
+                            # a layer renamed after the failure: its items are the same items under the new name
+                            at_failure = {((k[0], o[2]) + k[2:] if k[0] == "layers" and k[1] == o[1] else k): v
+                                          for k, v in at_failure.items()}
                 if font.path is not None:
                     font.save()
                 else:
@@ -391,42 +796,111 @@ def run_impl(case):
                 got.pop("structure", None)
                 got = _items(got)
                 bad = sorted(k for k in set(exp) | set(got) if exp.get(k) != got.get(k))
-                mclass = "inplace" if kind == "inplace" else "saveas"
-                if kind == "inplace" and str(path0).endswith(".ufoz"):
-                    mclass = "inplace-zip"      # a zip is rewritten on close(): every earlier failure leaves it untouched
                 seen = set()
                 for k in bad:
                     post = at_failure.get(k) != exp.get(k)      # the item was changed AFTER the failed save
+                    how = ""
+                    if k[0] == "layers":
+                        # what kind of change got lost
+                        if k not in exp:
+                            how = "/deleted-still-on-disk" if k[-1] != "<info>" else "/layer-removed-still-on-disk"
+                        elif k not in got:
+                            how = "/added-missing-on-disk"
+                        else:
+                            how = "/layer-info" if k[-1] == "<info>" else "/glyph-content"
                     if post:
-                        how = ""
-                        if k[0] == "layers":
-                            # what kind of later change got lost
-                            if k not in exp:
-                                how = "/deleted-still-on-disk" if k[-1] != "<info>" else "/layer-removed-still-on-disk"
-                            elif k not in got:
-                                how = "/added-missing-on-disk"
-                            else:
-                                how = "/layer-info" if k[-1] == "<info>" else "/glyph-content"
-                        sig = "C18/retry-loses-post-failure-change/%s/%s%s" % (mclass, k[0], how)
+                        sig = "C18/retry-loses-post-failure-change/%s/%s%s%s" % (mclass, k[0], how, narrow if k[0] == "layers" else "")
                     else:
                         own = "at-own-step" if OWN_STEP.get(k[0]) and step in OWN_STEP[k[0]] else "after-later-step"
                         sig = "C18/retry-loses-changes/%s/%s/%s" % (mclass, k[0], own)
+                        if mclass == "inplace" and k[0] == "layers":
+                            # (with layer actions pending the kind of loss is not told apart, as before round 3)
+                            sig += narrow if inp["pending"] else how + narrow
                     if sig in seen:
                         continue
                     seen.add(sig)
                     viol.append(dict(rec, clause="C18/retry-loses-post-failure-change" if post else "C18/retry-loses-changes", signature=sig,
                                      item=list(k), expected=str(exp.get(k))[:200], observed=str(got.get(k))[:200]))
+                # the verdict in the model's vocabulary: what a reader misses / finds too much in the layer the fault hit
+                if li is not None and li < len(inp["layers"]):
+                    L = inp["layers"][li]
+                    missing, extra, other = [], [], []
+                    for k in bad:
+                        if k[0] == "layers" and k[1] == L["name"]:
+                            if k[-1] == "<info>":
+                                other.append(Atom("layerinfo"))
+                            elif k in exp:
+                                missing.append(L["ids"].get(k[2], 999))
+                            else:
+                                extra.append(L["ids"].get(k[2], 999))
+                        else:
+                            other.append(Atom("other:" + str(k[0])))
+                    if not bad:
+                        verdict = [Atom("ok")]
+                    else:
+                        verdict = [Atom("lost"), sorted(missing), sorted(extra)] + sorted(set(other), key=str)
             except Exception as e:
+                verdict = [Atom("raises")]
                 viol.append(dict(rec, clause="C18/retry-raises",
-                                 signature="C18/retry-raises/%s/%s" % (
-                                     ("inplace-zip" if str(path0).endswith(".ufoz") else "inplace") if kind == "inplace" else "saveas",
-                                     type(e).__name__),
+                                 signature="C18/retry-raises/%s/%s%s" % (
+                                     mclass, type(e).__name__,
+                                     "" if mclass != "inplace" else (narrow if inp["pending"] else "/" + _reason(e) + narrow)),
                                  error=str(e)[:200]))
+            if cf is None and step_index in in_layer:
+                observed_retry[(in_layer[step_index][0], "env", in_layer[step_index][1])] = verdict
+            elif cf is not None and li is not None:
+                observed_retry[(li, ci)] = verdict
             try:
                 font.close()
             except Exception:
                 pass
         finally:
             shutil.rmtree(tmpd, ignore_errors=True)
+
+    for k in range(1, n + 1):
+        one_run(k, None, None)
+    for ci, cf in enumerate(case.get("cfaults", [])):
+        stats["content." + cf[0] + ("." + cf[3] if cf[0] == "glyph" else "")] = 1
+        one_run(None, cf, ci)
+    for pt in retry_points:
+        if pt[1] == "env":
+            outs.append(observed_retry.get((pt[0], "env", pt[2]), [Atom("not-run")]))
+        else:
+            outs.append(observed_retry.get((pt[0], pt[3]), [Atom("not-run")]))
+    stats["retry-predictions"] = len(retry_points)
     nontrivial = n >= 3 and any(o[0] not in ("save", "gget", "touch", "imgget", "datget") for o in case["ops"])
     return dict(out=outs, viol=viol, info=dict(nontrivial=nontrivial, stats=stats))
+
+
+def _corpus_cases():
+    import json
+    path = os.path.join(os.path.dirname(os.path.dirname(os.path.abspath(__file__))), "corpus", "C18", "layer_save.json")
+    return json.load(open(path))["cases"]
+
+
+_CORPUS_SIGNATURES = []
+
+
+def replay_known(entry):
+    """a recorded finding about ONE layer's in-place save (its signature names the failing step: `...@phase...`) is
+    confirmed when one of the hand-made histories (harness/corpus/C18) still shows its signature; the other entries are
+    confirmed only by the generated histories of the run"""
+    if "@" not in entry.get("signature", ""):
+        return False
+    if not _CORPUS_SIGNATURES:
+        install()
+        sigs = set()
+        for c in _corpus_cases():
+            sigs.update(v.get("signature") for v in run_impl(c)["viol"])
+        _CORPUS_SIGNATURES.append(sigs)
+    return entry["signature"] in _CORPUS_SIGNATURES[0]
+
+
+def search(rng, tier, broken):
+    """directed histories for the failing-input search (used when the tie between model and code no longer checks): the
+    hand-made ones, then generated ones that all end with a layer scenario saved in place into a UFO directory"""
+    for c in _corpus_cases():
+        yield c
+    for c in generate(rng, "quick"):
+        if c["ops"][-1][1] == "inplace" and c.get("structure") == "package" and c.get("origin") == "disk":
+            yield c
